@@ -76,7 +76,7 @@ impl<'a, TPrinter: Printer> FileExecutor<'a, TPrinter> {
         let config = self.execution_engine.execution_config();
         self.execution_engine.execute_joined_table(self.running.clone())?;
 
-        for reader in std::mem::take(&mut self.readers).into_iter() {
+        'files: for reader in std::mem::take(&mut self.readers).into_iter() {
             for line in reader.lines() {
                 if !self.running.load(Ordering::SeqCst) {
                     break;
@@ -97,7 +97,8 @@ impl<'a, TPrinter: Printer> FileExecutor<'a, TPrinter> {
                 }
 
                 if output.reached_limit {
-                    break;
+                    // The limit holds for the whole query, not per input file
+                    break 'files;
                 }
             }
         }
